@@ -507,8 +507,12 @@ func stressPairs(res *lib.Result, rep *report, args lib.Args, g *lib.Rng) {
 // ---------------------------------------------------------------------------------------------
 // supporting evidence (iii): a full relay under 16 concurrent clients, race build
 
-func runRelayChild(seconds int, seed int64) string {
-	cmd := exec.Command(os.Args[0], "child-relay", fmt.Sprint(seconds), fmt.Sprint(seed))
+func runRelayChild(seconds int, seed int64) string { return runRelayChildMode(seconds, seed, "mix") }
+
+// mode "mix": websocket clients + admin calls; mode "denysession": only POST /session against POST /bids/deny|allow
+// on the same few bookings (the two handlers that use both the code store and the deny store)
+func runRelayChildMode(seconds int, seed int64, mode string) string {
+	cmd := exec.Command(os.Args[0], "child-relay", fmt.Sprint(seconds), fmt.Sprint(seed), mode)
 	cmd.Env = append(os.Environ(), "GORACE=halt_on_error=0")
 	var buf bytes.Buffer
 	cmd.Stdout, cmd.Stderr = &buf, &buf
@@ -540,6 +544,11 @@ func stressRelay(res *lib.Result, rep *report, args lib.Args, g *lib.Rng) {
 	} else {
 		res.Notes = append(res.Notes, "relay stress did not report: "+tail(out, 400))
 	}
+	if hung, txt := hangEvidence(out); hung {
+		res.Violate(lib.Violation{Clause: "relay-deadlocks-under-concurrent-requests", Case: -1, Key: "hang:relay",
+			Detail: "stress of the full relay (16 clients): " + firstHang(txt),
+			Replay: replayCase{Kind: "hang", Mode: "mix", Seconds: float64(secs), Evidence: txt}})
+	}
 	if hit, txt := raceOnGuarded(rep, out); hit {
 		res.Violate(lib.Violation{Clause: "data-race-on-guarded-field", Case: -1, Key: "race:relay",
 			Detail: "race stress of the full relay (16 clients): " + firstLine(txt),
@@ -547,6 +556,24 @@ func stressRelay(res *lib.Result, rep *report, args lib.Args, g *lib.Rng) {
 	} else if n := otherRaces(out); n > 0 {
 		res.Notes = append(res.Notes, fmt.Sprintf("relay stress: %d race report(s) NOT on a guarded field (outside C12's guard table), first: %s", n, firstFrames(out)))
 	}
+}
+
+func firstHang(txt string) string {
+	l := strings.SplitN(txt, "\n", 2)[0]
+	return strings.TrimPrefix(l, "@@HANG ")
+}
+
+// searchDeadlock: POST /session against POST /bids/deny|allow on the same bookings, real access API, watchdog
+func searchDeadlock(g *lib.Rng) (bool, string, []string) {
+	var tried []string
+	for try := 0; try < 2; try++ {
+		tried = append(tried, "8 clients POST /session || 8 clients POST /bids/deny|allow on 5 bookings, 4 s, then a probe with a 5 s watchdog")
+		out := runRelayChildMode(4, int64(g.Intn(1<<30)), "denysession")
+		if hung, txt := hangEvidence(out); hung {
+			return true, txt, tried
+		}
+	}
+	return false, "", tried
 }
 
 func firstFrames(out string) string {
@@ -567,11 +594,84 @@ func firstFrames(out string) string {
 	return strings.Join(fs, " | ")
 }
 
+var blockedRe = regexp.MustCompile(`sync\.\(\*(RW)?Mutex\)\.(R?Lock|lockSlow)`)
+var ourPkgRe = regexp.MustCompile(`internal/(ttlcode|deny|chanmap|crossbar|access)[./]`)
+
+// hangEvidence: the child reported that the relay stopped answering AND goroutines of the store packages are
+// parked on a mutex. Returns the goroutine dump.
+func hangEvidence(out string) (bool, string) {
+	i := strings.Index(out, "@@HANG")
+	if i < 0 {
+		return false, ""
+	}
+	txt := out[i:]
+	if !blockedRe.MatchString(txt) || !ourPkgRe.MatchString(txt) {
+		return false, ""
+	}
+	if len(txt) > 6000 {
+		txt = txt[:6000]
+	}
+	return true, txt
+}
+
+// after the load: does the relay still answer? if not, dump the goroutines that are parked on a mutex
+func hangProbe(r *lib.Relay, admin string) {
+	ok := false
+	var sts [2]int
+	for try := 0; try < 2 && !ok; try++ {
+		now := time.Now().Unix()
+		tok := lib.Sign(r.Claims("probe", "probe-bid", []string{"read", "write"}, now-2, now-2, now+30), r.Secret)
+		st, _, _ := r.Session("probe", tok)
+		rs := r.Deny("probe-bid-2", now+5, admin)
+		sts = [2]int{st, rs.Status}
+		ok = st > 0 && rs.Err == nil
+	}
+	if ok {
+		fmt.Fprintln(os.Stderr, "@@ALIVE")
+		return
+	}
+	buf := make([]byte, 4<<20)
+	n := runtime.Stack(buf, true)
+	var keep []string
+	for _, g := range strings.Split(string(buf[:n]), "\n\n") {
+		if blockedRe.MatchString(g) && ourPkgRe.MatchString(g) {
+			keep = append(keep, g)
+		}
+	}
+	fmt.Fprintf(os.Stderr, "@@HANG the relay no longer answers POST /session (status %d) or POST /bids/deny (status %d) within 5 s, twice; %d goroutine(s) of the store packages are parked on a mutex\n", sts[0], sts[1], len(keep))
+	seen := map[string]bool{}
+	shown := 0
+	for _, g := range keep {
+		lines := strings.Split(g, "\n")
+		key := ""
+		for _, l := range lines {
+			if ourPkgRe.MatchString(l) && strings.Contains(l, "(") {
+				key = l
+				break
+			}
+		}
+		if seen[key] || shown >= 4 {
+			continue
+		}
+		seen[key] = true
+		shown++
+		if len(lines) > 24 {
+			lines = lines[:24]
+		}
+		fmt.Fprintln(os.Stderr, strings.Join(lines, "\n"))
+		fmt.Fprintln(os.Stderr)
+	}
+}
+
 func childRelay(a []string) {
 	secs, seed := 3, int64(1)
+	mode := "mix"
 	fmt.Sscan(a[0], &secs)
 	if len(a) > 1 {
 		fmt.Sscan(a[1], &seed)
+	}
+	if len(a) > 2 {
+		mode = a[2]
 	}
 	r := lib.StartRelay(lib.RelayOpts{PruneEvery: 150 * time.Millisecond, StatsEvery: 300 * time.Millisecond, BufferSize: 8})
 	admin := r.AdminBearer("relay:admin")
@@ -591,6 +691,21 @@ func childRelay(a []string) {
 				bid := fmt.Sprintf("bid%d", gg.Intn(5))
 				topic := fmt.Sprintf("t%d", gg.Intn(3))
 				tok := lib.Sign(r.Claims(topic, bid, []string{"read", "write"}, now-2, now-2, now+30), r.Secret)
+				if mode == "denysession" {
+					// half of the clients ask for sessions, the other half deny / allow the same bookings
+					if c%2 == 0 {
+						r.Session(topic, tok)
+						atomic.AddInt64(&sessions, 1)
+					} else {
+						if gg.Bool() {
+							r.Deny(bid, now+2, admin)
+						} else {
+							r.Allow(bid, now+20, admin)
+						}
+						atomic.AddInt64(&adm, 1)
+					}
+					continue
+				}
 				st, uri, _ := r.Session(topic, tok)
 				atomic.AddInt64(&sessions, 1)
 				if st == 200 {
@@ -629,6 +744,7 @@ func childRelay(a []string) {
 	}
 	wg.Wait()
 	fmt.Fprintf(os.Stderr, "@@RELAY sessions=%d conns=%d msgs=%d admin=%d\n", sessions, conns, msgs, adm)
+	hangProbe(r, admin)
 	r.Stop()
 	time.Sleep(100 * time.Millisecond)
 }
